@@ -42,6 +42,7 @@ F = [
  ("C12","C12-torn-tail-behind-compression-header","fixed","3bd6d37","compressed segment cut inside its first record: the torn tail behind the compression header was kept on reopen, records appended in that session were unreachable"),
  ("C18","C18-separator-overflow-on-leaf-redistribution","fixed","2d51b9f","keys longer than the inline limit (~1 KB): when leaves redistribute, the parent separator was replaced but its overflow chain kept - the new key was reconstructed from the wrong chain ('Reconstructed key size .. doesn't match expected ..' on later loads and after reopen) or the chain was leaked (page neither reachable nor free)"),
  ("C19","C19-refused-open-truncates-lock","fixed","59b92d9","a refused second open truncated the live owner's LOCK file (opened with truncate before the lock was tried): the directory was not left untouched"),
+ ("C16","C16-filter-block-unchecked","fixed","27fb7a5","an altered byte inside a table's filter block was not detected (the block's checksum was never verified): point lookups of stored keys returned nothing, or the filter reader panicked on an out-of-range slice index"),
  ("C11","C11-vlog-rotation-inside-flush-not-synced","fixed","f424741","a value-log file rotated away inside a flush was never fsynced; after power loss the installed table pointed at missing bytes"),
 ]
 out = {"_comment": "Committed; never written at run time. status=open: the directed scenario with the same id (harness/src/scenarios.rs or harness/src/props/crash.rs) still fails on the tree; the check prints KNOWN-FINDING for it and the generators mask exactly that pattern. status=fixed: repaired by the named fix: commit in /repo; suppresses nothing - the scenario stays in the check as a regression monitor and reports VIOLATION if the behaviour returns.",
